@@ -1,7 +1,8 @@
 """C03: escape table of `quoted_string` (turtle/src/serializer/nt.rs) -> Gen/NtEscapes.lean.
 
 Fail closed: the function body, with white space normalised, must be exactly the known control flow
-(search the first cut byte, write the prefix, `match cutchar` arms, recurse on the rest); only the cut
+(`loop {` search the first cut byte; write the prefix; `match cutchar` arms; return if the cut byte was
+the last one; continue with the rest `}` — in exactly this order); only the cut
 condition and the arms are free.  `ExtractError`, `read`, `HEADER` are injected by tools/extract.py.
 """
 import re
@@ -11,12 +12,13 @@ REL = "turtle/src/serializer/nt.rs"
 BYTE = r"b'(?:\\.|\\x[0-9a-fA-F]{2}|[^\\'])'"
 
 TEMPLATE = (
-    r"^let mut cut = txt\.len\(\); let mut cutchar = b'\\0'; "
+    r"^loop \{ let mut cut = txt\.len\(\); let mut cutchar = b'\\0'; "
     r"for \(pos, chr\) in txt\.iter\(\)\.enumerate\(\) \{ let chr = \*chr; "
     r"if (?P<guard>.+?) \{ cut = pos; cutchar = chr; break; \} \} "
     r"w\.write_all\(&txt\[\.\.cut\]\)\?; "
     r"if cut < txt\.len\(\) \{ match cutchar \{ (?P<arms>.*?) _ => unreachable!\(\),? \} \};? "
-    r"if cut \+ 1 >= txt\.len\(\) \{ Ok\(\(\)\) \} else \{ quoted_string\(w, &txt\[cut \+ 1\.\.\]\) \}$"
+    r"if cut \+ 1 >= txt\.len\(\) \{ return Ok\(\(\)\); \} "
+    r"txt = &txt\[cut \+ 1\.\.\]; \}$"
 )
 
 ESC = {"n": 10, "r": 13, "t": 9, "0": 0, "\\": 92, "'": 39, '"': 34}
@@ -68,7 +70,7 @@ def _lean_char(n):
 
 
 def _function_body(text):
-    m = re.search(r"fn quoted_string<W: io::Write>\(w: &mut W, txt: &\[u8\]\) -> io::Result<\(\)> \{", text)
+    m = re.search(r"fn quoted_string<W: io::Write>\(w: &mut W, mut txt: &\[u8\]\) -> io::Result<\(\)> \{", text)
     if not m:
         raise ExtractError("quoted_string: signature not found in " + REL)
     i = m.end()
